@@ -8,6 +8,8 @@ import (
 
 func init() { registry["C05"] = runC05 }
 
+var handBackN int
+
 func rbacSpec(domains bool, g2 bool) *MSpec {
 	ms := NewMSpec()
 	if domains {
@@ -102,7 +104,17 @@ func runC05(c *Ctx) {
 			if len(now) < 2 {
 				return
 			}
-			s.Do(c, EOp{Kind: "rms", Sec: "g", PType: gt, Rules: now, Listed: true})
+			handBackN++
+			if handBackN%2 == 0 {
+				// … or to the batch update: every listed rule gets a new role
+				news := cloneRules(now)
+				for i := range news {
+					news[i][1] = news[i][1] + "_n"
+				}
+				s.Do(c, EOp{Kind: "upds", Sec: "g", PType: gt, Rules: now, News: news, Listed: true})
+			} else {
+				s.Do(c, EOp{Kind: "rms", Sec: "g", PType: gt, Rules: now, Listed: true})
+			}
 			for _, p := range probes {
 				s.Do(c, p)
 			}
